@@ -172,13 +172,25 @@ fn cmp_tags(target: &str, seed: u64, params: &str, got: &[TagRec], want: &[TagRe
     Ok(())
 }
 
+static WAIT_CALLS: std::sync::atomic::AtomicUsize = std::sync::atomic::AtomicUsize::new(0);
+static WAIT_PROBES: std::sync::atomic::AtomicUsize = std::sync::atomic::AtomicUsize::new(0);
+
 /// one step of work() with the C09/C15 observations: returns (verdict name, progress made)
 fn step<B: Block>(b: &mut B, target: &str, seed: u64, params: &str, before: (usize, usize), after: &dyn Fn() -> (usize, usize), state_changed: bool) -> Result<String, Fail> {
     let r = std::panic::catch_unwind(std::panic::AssertUnwindSafe(|| match b.work() {
         Ok(BlockRet::Again) => "Again".to_string(),
         Ok(BlockRet::EOF) => "EOF".to_string(),
         Ok(BlockRet::Pending) => "Pending".to_string(),
-        Ok(BlockRet::WaitForStream(_, n)) => format!("Wait({n})"),
+        Ok(BlockRet::WaitForStream(w, n)) => {
+            // C09: a wait that the named stream already satisfies is untruthful (the scheduler would spin).  Timing probe
+            // (a genuine wait takes the stream's 100 ms timeout), sampled: at most WAIT_PROBES per process.
+            let k = WAIT_CALLS.fetch_add(1, std::sync::atomic::Ordering::Relaxed);
+            if k % 5 == 0 && WAIT_PROBES.fetch_add(1, std::sync::atomic::Ordering::Relaxed) < 60 && !wait_is_truthful(w, n) {
+                format!("UntruthfulWait({n})")
+            } else {
+                format!("Wait({n})")
+            }
+        }
         Ok(BlockRet::WaitForFunc(_)) => "WaitForFunc".to_string(),
         Err(e) => format!("Err({e:?})"),
     }));
@@ -187,6 +199,10 @@ fn step<B: Block>(b: &mut B, target: &str, seed: u64, params: &str, before: (usi
             what: "work() panicked".into(), seed, params: params.into() }),
         Ok(v) => {
             let a = after();
+            if v.starts_with("UntruthfulWait") && a == before {
+                return Err(Fail { target: target.into(), prop: "C09", label: format!("C09.{target}.wait-names-the-blocking-stream"),
+                    what: format!("work() made no progress and answered {v}: the stream it names already offers that much (the wait returns at once)"), seed, params: params.into() });
+            }
             if v == "Again" && a == before && !state_changed {
                 return Err(Fail { target: target.into(), prop: "C09", label: format!("C09.{target}.again-means-progress"),
                     what: format!("work() answered Again but input free space and output fill are unchanged {:?}", a), seed, params: params.into() });
@@ -604,6 +620,10 @@ fn hdlc_frame(payload: &[u8], with_crc: bool, out: &mut Vec<u8>) {
 }
 /// `open`: emit the opening flag (false: the previous frame's closing flag is shared)
 fn hdlc_frame2(payload: &[u8], with_crc: bool, open: bool, out: &mut Vec<u8>) {
+    hdlc_frame3(payload, with_crc, open, None, out)
+}
+/// `flip`: one payload bit is inverted on the wire AFTER the checksum was computed (a transmission error)
+fn hdlc_frame3(payload: &[u8], with_crc: bool, open: bool, flip: Option<usize>, out: &mut Vec<u8>) {
     let flag = [0u8, 1, 1, 1, 1, 1, 1, 0];
     if open {
         out.extend_from_slice(&flag);
@@ -613,6 +633,9 @@ fn hdlc_frame2(payload: &[u8], with_crc: bool, open: bool, out: &mut Vec<u8>) {
         let c = crc16_x25(payload);
         bytes.push((c & 0xff) as u8);
         bytes.push((c >> 8) as u8);
+    }
+    if let Some(k) = flip {
+        bytes[k / 8] ^= 1 << (k % 8);
     }
     let mut ones = 0;
     for b in bytes {
@@ -639,10 +662,13 @@ fn run_hdlc(seed: u64) -> Result<u64, Fail> {
     let with_crc = rng.below(4) != 0;
     let min_size = rng.pick(&[0, 1, 2, 3]);
     let max_size = rng.pick(&[4, 8, 20]);
-    let params = format!("crc={with_crc} min={min_size} max={max_size}");
+    // single-bit repair: a frame with ONE wrong payload bit is delivered as the original when fixing is on, dropped when off
+    let fix = with_crc && rng.below(2) == 0;
+    let params = format!("crc={with_crc} fix_bits={fix} min={min_size} max={max_size}");
     let (w, r) = new_stream::<u8>();
     let (mut d, out) = HdlcDeframer::new(r, min_size, max_size);
     d.set_checksum(with_crc);
+    d.set_fix_bits(fix);
     let mut bits: Vec<u8> = vec![];
     let mut want: Vec<Vec<u8>> = vec![];
     // noise preamble that contains no flag: alternate bits, then up to 6 ones
@@ -658,8 +684,9 @@ fn run_hdlc(seed: u64) -> Result<u64, Fail> {
         let on_wire = len + if with_crc { 2 } else { 0 };
         // what the documented deframer must deliver for this frame
         let deliver = on_wire >= min_size && on_wire <= max_size && (!with_crc || on_wire >= 2);
-        hdlc_frame2(&payload, with_crc, !(shared && rng.below(2) == 0), &mut bits);
-        if deliver { want.push(payload); }
+        let flip = if with_crc && len > 0 && rng.below(3) == 0 { Some(rng.below(8 * len)) } else { None };
+        hdlc_frame3(&payload, with_crc, !(shared && rng.below(2) == 0), flip, &mut bits);
+        if deliver && (flip.is_none() || fix) { want.push(payload); }
         // idle: 0..3 extra flags or some zeros (never 6 ones directly before a flag)
         match rng.below(3) {
             0 => { shared = true; }
